@@ -491,6 +491,15 @@ func (p *ProtocolGraphQLTransportWSHandler) handleSubscribe(ctx context.Context,
 		return nil
 	}
 
+	if message.Id == "" {
+		// The id is mandatory: without it the results could only be sent as messages that the
+		// protocol does not define (next/error/complete without an id).
+		p.closeConnectionWithReason(
+			NewCloseReason(4400, "Subscribe message without id"),
+		)
+		return nil
+	}
+
 	subscribePayload, err := p.reader.DeserializeSubscribePayload(message)
 	if err != nil {
 		return err
